@@ -175,10 +175,22 @@ def build_seq(spec):
     """Sequence from a seqspec; spec['start'] selects which stored view is fresh at the start."""
     Message, MT, Key, Sequence, RelativeSequence, AbsoluteSequence = _lib()
     start = spec.get("start", "abs")
+    npt = None
+    if spec.get("np_ticks"):
+        # integer ticks need not be Python ints: onsets computed with numpy (np.arange, np.cumsum) are np.int64 / np.int32
+        import numpy as np
+        npt = {"int64": np.int64, "int32": np.int32}[spec["np_ticks"]]
     if start == "rel":
-        return Sequence(relative_sequence=RelativeSequence(rel_messages(spec)))
+        rm = rel_messages(spec)
+        for m in rm:
+            if npt is not None and m.time is not None:
+                m.time = npt(m.time)
+        return Sequence(relative_sequence=RelativeSequence(rm))
     s = Sequence()
     msgs = abs_messages(spec)
+    for m in msgs:
+        if npt is not None and m.time is not None:
+            m.time = npt(m.time)
     if start == "abs_shuffled":
         # the same events handed to add_absolute_message in a shuffled order: the stored list is time-ordered, equal ticks keep
         # their insertion order (e.g. the note-on of a note before the note-off of the note it follows)
@@ -217,6 +229,85 @@ def raw_rel_seq(msgs):
             out.append(make_message("pc", (m[1], m[2])))
     return Sequence(relative_sequence=RelativeSequence(out))
 
+
+
+DEGENERATE_SHAPES = ["empty", "rests_only", "meta_only", "one_note_tick0_len1", "one_long_note_tick0", "chord_tick0", "chord_late_uneven",
+                     "one_note_then_rest", "one_event_duration0", "same_pitch_two_channels", "abutting_chain", "late_single_note",
+                     "one_tick_everything"]
+
+
+def degenerate(spec, i):
+    """Replaces the content of a sequence spec by a degenerate but legal shape (empty, rests only, signatures / controllers only, a
+    single note, everything on one tick, ...), keeping which stored view is fresh.  Returns the name of the shape."""
+    import random
+    r = random.Random(f"degenerate:{i}")
+    shape = DEGENERATE_SHAPES[(i // 37) % len(DEGENERATE_SHAPES)]
+    chans = sorted({n[0] for n in spec.get("notes", [])}) or [0]
+    c0, c1 = chans[0], (chans[1] if len(chans) > 1 else (chans[0] + 1) % 16)
+    p = r.choice([60, 61, 36, 100])
+    v = lambda: r.randint(1, 127)
+    notes, extra, pad = [], [], None
+    if shape == "rests_only":
+        pad = r.choice([1, 24, 37, 96, 384])
+    elif shape == "meta_only":
+        extra = [["ts", 0, *r.choice([(4, 4), (3, 4), (6, 8)])], ["ks", 0, r.choice(KEYS)]]
+        if r.random() < 0.5:
+            extra.append(["cc", r.choice([0, 5, 24]), c0, 7, 99])
+        pad = r.choice([None, 96])
+    elif shape == "one_note_tick0_len1":
+        notes = [[c0, p, 0, 1, v()]]
+    elif shape == "one_long_note_tick0":
+        notes = [[c0, p, 0, r.choice([24, 96, 97, 384]), v()]]
+    elif shape == "chord_tick0":
+        ln = r.choice([1, 6, 24])
+        notes = [[c0, p + k, 0, ln, v()] for k in range(r.randint(2, 5))]
+    elif shape == "chord_late_uneven":
+        t = r.choice([1, 7, 24, 95])
+        notes = [[c0, p + k, t, 1 + 5 * k, v()] for k in range(r.randint(2, 4))]
+    elif shape == "one_note_then_rest":
+        notes = [[c0, p, r.choice([0, 3]), r.choice([2, 12]), v()]]
+        pad = r.choice([48, 96, 200])
+    elif shape == "one_event_duration0":
+        extra = [r.choice([["cc", 0, c0, 64, 127], ["pc", 0, c0, 5], ["ts", 0, 4, 4], ["ks", 0, KEYS[0]]])]
+    elif shape == "same_pitch_two_channels":
+        ln = r.choice([1, 12])
+        notes = [[c0, p, 0, ln, v()], [c1, p, 0, ln, v()]]
+    elif shape == "abutting_chain":
+        ln = r.choice([1, 1, 6])
+        notes = [[c0, p, k * ln, ln, v()] for k in range(r.randint(2, 6))]
+    elif shape == "late_single_note":
+        notes = [[c0, p, r.choice([96, 383, 1000]), r.choice([1, 24]), v()]]
+    elif shape == "one_tick_everything":
+        t = r.choice([0, 24])
+        notes = [[c0, p, t, 6, v()], [c0, p + 1, t, 6, v()]]
+        extra = [["cc", t, c0, 7, 100], ["ts", t, 3, 4], ["ks", t, KEYS[1]]]
+    spec["notes"], spec["extra"] = notes, extra
+    spec.pop("hanging", None)
+    if pad is None:
+        spec.pop("pad", None)
+    else:
+        spec["pad"] = pad
+    return shape
+
+
+def relabel_channels(specs, i):
+    """Moves the channels of the given specs (consistently, injectively) onto the drum channel 9 and its neighbours / channel 15;
+    pitches, ticks and velocities stay.  Returns the mapping."""
+    chans = sorted({n[0] for s in specs for n in s.get("notes", [])} | {h[0] for s in specs for h in s.get("hanging", [])} |
+                   {e[2] for s in specs for e in s.get("extra", []) if e[0] in ("cc", "pc")})
+    targets = [[9, 15, 10, 8, 0], [15, 9, 0, 10, 8], [9, 0, 15, 8, 10]][(i // 11) % 3]
+    if not chans or len(chans) > len(targets):
+        return {}
+    cmap = {c: targets[k] for k, c in enumerate(chans)}
+    for s in specs:
+        for n in s.get("notes", []):
+            n[0] = cmap[n[0]]
+        for h in s.get("hanging", []):
+            h[0] = cmap[h[0]]
+        for e in s.get("extra", []):
+            if e[0] in ("cc", "pc"):
+                e[2] = cmap[e[2]]
+    return cmap
 
 # ----------------------------------------------------------------------------- pieces (multi-track, bar-laid)
 
